@@ -17,3 +17,36 @@ CLAIMS["C11"] = dict(
          "oracle checks exactly-once consumption, per-producer order, legitimacy of every failed Add, the capacity invariant at every scheduling point, "
          "instance counts, mutual exclusion and termination of lock().",
     note=SCHED_NOTE)
+
+CLAIMS["C01"] = dict(
+    engine="sched",
+    technique="stateless model checking of the real code: preemption-bounded exhaustive interleaving exploration (iterative context bounding) with happens-before state caching and a virtual clock",
+    text="The unmodified BatchSpanProcessor and BatchLogRecordProcessor sources (with the real CircularBuffer) run under a controlled scheduler that owns every "
+         "atomic, mutex, condition variable, thread and the clock. For each small configuration (queue/batch sizes, 2-3 producers, slow exporter, gated exporter, "
+         "mid-run flushes, shutdown racing producers) every schedule within the preemption budget is executed and checked: no record reaches the exporter twice, "
+         "per-producer order, a record is lost only if the queue was provably full (counting argument of DESIGN 5/C01), instance counts return to zero, no deadlock "
+         "(producers never wait for the exporter).",
+    note=SCHED_NOTE)
+CLAIMS["C02"] = dict(
+    engine="sched",
+    technique="stateless model checking of the real code: preemption- and timer-deviation-bounded exhaustive interleaving exploration with state caching and a virtual clock",
+    text="Same engine; configurations with concurrent ForceFlush callers (timeouts zero / short / long / max), concurrent Shutdown callers, slow and failing exporters, "
+         "destruction instead of Shutdown and late calls. Oracle on logical timestamps: a ForceFlush that returned true exported everything added before it was called and "
+         "invoked the exporter's ForceFlush in between; after a Shutdown returned everything produced before it was exported, the exporter was shut down exactly once, no "
+         "exporter method is entered any more and late calls take no (virtual) time; every execution terminates (deadlock / horizon detection).",
+    note=SCHED_NOTE)
+CLAIMS["C03"] = dict(
+    engine="sched",
+    technique="stateless model checking of the real code: preemption-bounded exhaustive interleaving exploration with state caching",
+    text="Same engine; the harness exporter counts concurrent entries (its Export contains a scheduling point) and records every batch size, on histories that include an "
+         "earlier completed ForceFlush, concurrent flushes and the shutdown drain path: in-flight <= 1 and 1 <= |batch| <= max_export_batch_size in every explored schedule.",
+    note=SCHED_NOTE)
+SEQ_NOTE = ("Bounded exhaustive: every operation sequence / input of the stated alphabet up to the stated depth or mutation bound, executed on the real code under "
+            "AddressSanitizer in lock-step with an independent reference model; inputs outside the alphabet and deeper histories are not covered; trusted base: the reference model and the alphabet.")
+CLAIMS["C14"] = dict(
+    engine="seq",
+    technique="explicit-state exploration of operation histories on the real object against a reference model (bounded depth, canonical-state pruning) plus deviation-bounded input enumeration",
+    text="All Set/Delete/Get/ToHeader-FromHeader histories up to depth 3 (quick) / 4 (thorough) over an alphabet of valid, boundary-length and invalid keys and values, from "
+         "start states with 0, 1, 31 and 32 members, on the real TraceState against an ordered-list model with independently written W3C validity predicates; FromHeader over "
+         "all single (thorough: double) point mutations of seed headers, in exact-size heap blocks under ASan, against an independent member parser (three-valued oracle).",
+    note=SEQ_NOTE)
